@@ -79,10 +79,14 @@ func doGC2(c *kit.Ctx, x gc2Case) {
 			rules = append(rules, rule{"delete", "NodeClaim", cl.Name, 0, cl.DelF})
 		}
 	}
+	d := decorFor(c)
+	rules = d.rules(rules)
 	w := newWorld(rules...)
 	var deleting []*v1.NodeClaim
 	for _, cl := range x.Claims {
 		nc := gcClaimObj(cl)
+		d.claim(nc)
+		d.pods(w, "node-of-"+cl.Name)
 		w.add(nc)
 		if cl.Deleting {
 			deleting = append(deleting, nc)
